@@ -1,7 +1,7 @@
 #!/bin/bash
 # harvest_seed.sh <CNN> <name>: confirm a sub-agent's property-breaking change in its scratch worktree /tmp/wt_<CNN>
 # (suite still passes, demo fails with the change and passes without) and keep it as /verif/seeded/<name>/.
-P="$1"; NAME="$2"; WT=/tmp/wt_$P; OUT=/verif/seeded/$NAME
+P="$1"; NAME="$2"; WT=${3:-/tmp/wt_$P}; OUT=/verif/seeded/$NAME
 set -u
 cd $WT || exit 2
 git diff -- src > /tmp/harvest_$P.diff
